@@ -191,21 +191,22 @@ type RunResult struct {
 }
 
 type World struct {
-	t      *testing.T
-	sc     *Scenario
-	tape   *core.Tape
-	vs     *vsync.World
-	mgr    *server.Manager
-	ctx    context.Context
-	cancel context.CancelFunc
-	res    *RunResult
-	cs     []*clientState
-	h      uint64
-	keep   bool
-	last   *vsync.Task
-	idle   int
-	prio   map[string]int
-	j      *core.Journal
+	t        *testing.T
+	sc       *Scenario
+	tape     *core.Tape
+	vs       *vsync.World
+	mgr      *server.Manager
+	ctx      context.Context
+	cancel   context.CancelFunc
+	res      *RunResult
+	cs       []*clientState
+	h        uint64
+	keep     bool
+	last     *vsync.Task
+	idle     int
+	idleTime time.Duration
+	prio     map[string]int
+	j        *core.Journal
 }
 
 func (w *World) trace(format string, a ...any) {
@@ -350,7 +351,12 @@ func (w *World) collect() {
 			}
 			c.rx = c.rx[n:]
 			w.res.Seq++
-			if c.pushMode || len(c.waiting) == 0 {
+			isMsg := c.prog.Role == "subscriber" && v.Kind == rd.Array && len(v.Arr) > 0 && v.Arr[0].StringLike() && string(v.Arr[0].Str) == "message"
+			if isMsg || c.pushMode || len(c.waiting) == 0 {
+				if c.pushMode && !isMsg && v.Kind == rd.Array && len(v.Arr) > 0 && v.Arr[0].StringLike() && string(v.Arr[0].Str) == "subscribe" {
+					// further subscription confirmations (one per channel) are not messages
+					continue
+				}
 				c.pushes = append(c.pushes, PushRec{Seq: w.res.Seq, At: time.Now(), V: v})
 				w.trace("c%d push %s", i, truncate(v.String(), 80))
 				continue
@@ -454,7 +460,9 @@ func (w *World) events() []event {
 				evs = append(evs, event{kind: st.Kind, client: i})
 			}
 		case "stall", "unstall":
-			evs = append(evs, event{kind: st.Kind, client: i})
+			if len(c.waiting) == 0 {
+				evs = append(evs, event{kind: st.Kind, client: i})
+			}
 		case "wait":
 			if len(c.waiting) == 0 {
 				evs = append(evs, event{kind: "wait", client: i})
@@ -553,11 +561,12 @@ func (w *World) loop(maxSteps int) {
 				return
 			}
 			// someone waits for a reply that only time can bring (blocking pop)
-			if w.idle < idleBudget && w.canAdvanceClock(w.vs.Pending()) {
+			if w.idleTime < time.Duration(idleBudget)*100*time.Millisecond && w.idle < 50*idleBudget && w.canAdvanceClock(w.vs.Pending()) {
 				w.idle++
 				w.res.Steps++
 				w.res.Faults["idle-advance"]++
 				got := w.sleepInterruptible(100 * time.Millisecond)
+				w.idleTime += got
 				w.trace("idle +%v", got)
 				continue
 			}
@@ -830,6 +839,11 @@ func deathSignature(kind string, a []B) string {
 // finish: teardown under the same cooperative scheduler (fixed policy), then
 // the structural self-check and the dumps.
 func (w *World) finish() {
+	// what sits in a stalled reader's socket buffer was delivered to it
+	for _, c := range w.cs {
+		c.stalled = false
+	}
+	w.collect()
 	w.res.TraceHash = w.h
 	w.res.SimElapsed = time.Since(w.res.start)
 	w.res.OrderEdges = len(w.vs.Order)
